@@ -163,6 +163,40 @@ def _value_symptom(span, val, typ):
     return 'differs'
 
 
+_TK_NC = []
+
+
+def _without_comments(res, text, fs, toks, case):
+    """the comment-dropping tokenizer (Tokenizer(doComments=False), what CSSParser(parseComments=False) uses) yields the same
+    tokens at the same positions, only without the comment tokens"""
+    if not _TK_NC:
+        _TK_NC.append(Tokenizer(doComments=False))
+    res.clauses['C05.nocomments'] += 1
+    try:
+        guard.signal.setitimer(guard.signal.ITIMER_REAL, 5.0)
+        got = [tuple(t[:4]) for t in _TK_NC[0].tokenize(text, fullsheet=fs)]
+        guard.signal.setitimer(guard.signal.ITIMER_REAL, 0)
+    except guard.Timeout:
+        res.violation('C05.total', 'timeout|doComments=False', case, 'terminates', 'no answer within 5 s')
+        return
+    except Exception as e:
+        guard.signal.setitimer(guard.signal.ITIMER_REAL, 0)
+        res.violation('C05.total', guard.crash_site(e) + '|doComments=False', dict(case, doComments=False), 'a token list', repr(e))
+        return
+    want = [tuple(t[:4]) for t in toks if t[0] != 'COMMENT']
+    if got != want:
+        i = next((k for k, (a, b) in enumerate(zip(got, want)) if a != b), min(len(got), len(want)))
+        a = got[i] if i < len(got) else None
+        b = want[i] if i < len(want) else None
+        if a and b and a[:2] == b[:2]:
+            sym = 'position-after-dropped-comment|' + ('multi-line-comment' if '\n' in text or '\r' in text or '\f' in text else 'single-line')
+        elif a and a[0] == 'COMMENT':
+            sym = 'comment-not-dropped'
+        else:
+            sym = 'other-tokens'
+        res.violation('C05.nocomments', sym, dict(case, doComments=False), [list(t) for t in want[max(0, i - 1):i + 2]], [list(t) for t in got[max(0, i - 1):i + 2]])
+
+
 def _open_comment(res, tk, text, toks, case):
     """full-sheet mode completes an unterminated comment: the tokens are those of the text with the terminator written out.
     The reference is the tokenizer itself in the other mode (judged by the clauses above) on text + '*/'; it applies when
@@ -211,6 +245,8 @@ def _run_text(res, tk, text, case_kind='text'):
         judge(res, text, fs, toks, case)
         if fs and '/*' in text:
             _open_comment(res, tk, text, toks, case)
+        if '/*' in text:
+            _without_comments(res, text, fs, toks, case)
         types = tuple(t[0] for t in toks)
         res.outcomes.add(h64(repr(types)))
         res.sets['types'].update(types)
@@ -431,6 +467,8 @@ def _check_b(res, tk, text, fs, exp, case):
             sym = f'{e[0]}-as-{g[0]}'
         res.violation('C05.classify', sym, case, exp[max(0, i - 1):i + 2], got[max(0, i - 1):i + 2], size=len(case['spellings']) * 1000 + len(text))
     judge(res, text, fs, toks, case)
+    if '/*' in text:
+        _without_comments(res, text, fs, toks, case)
     res.outcomes.add(h64(repr(tuple(t[0] for t in toks))))
     res.sets['types'].update(t[0] for t in toks)
     if len(toks) >= 2:
@@ -560,6 +598,8 @@ def replay(case, tier, seed):
                 judge(res, text, fs, toks, case)
                 if fs and '/*' in text:
                     _open_comment(res, tk, text, toks, case)
+                if '/*' in text:
+                    _without_comments(res, text, fs, toks, case)
         elif case['kind'] == 'tokens':
             by = {m[0]: m for m in MENU}
             seq = tuple(by[s] for s in case['spellings'])
